@@ -26,7 +26,7 @@ _AXES = {
     "directions": ["xyz", "xy", "z"],
     "mean": [True, False],
     "detectors": ["waves", "annular", "pixelated", "flexible", "two"],
-    "exit_planes": ["none", "2", "tuple", "open"],
+    "exit_planes": ["none", "1", "2", "tuple", "open"],
     "builder": ["probe_point", "probe_grid", "planewave", "smatrix"],
     "lazy": [True, False],
     "grid": ["16x16", "15x18", "12x20"],
@@ -82,9 +82,30 @@ def _finish(row, seed, i):
     return c
 
 
+def _pinned_rows():
+    """Three-way combinations a pairwise array does not guarantee: several configurations in ONE block (eager), an
+    entrance plane (integer exit_planes) and every detector / builder — the bookkeeping of the configuration loop."""
+    rows = []
+    for k, det in enumerate(_AXES["detectors"]):
+        for b, builder in enumerate(["probe_point", "probe_grid", "planewave"]):
+            if (k + b) % 2 and builder != "planewave":
+                continue
+            rows.append(dict(kind=["fp", "ens"][(k + b) % 2], n=[2, 3][(k + b) % 2], sigmas="scalar", seed="tuple", directions="xyz",
+                             mean=bool((k + b) % 3 == 0), detectors=det, exit_planes=["1", "2"][b % 2], builder=builder,
+                             lazy=False, grid=_AXES["grid"][(k + b) % 3], _pinned_nslices=4))
+    return rows
+
+
 def cases(tier, seed):
     reps = 1 if tier == "quick" else 3
     i = 0
+    for row in _pinned_rows():
+        c = _finish({k: v for k, v in row.items() if not k.startswith("_")}, seed, 10_000 + i)
+        c["nslices"] = 4
+        if isinstance(c["slice_thickness"], list):
+            c["slice_thickness"] = 1.0
+        yield c
+        i += 1
     for s in range(reps):
         for row in covering(_AXES, seed=77 + 1000 * seed + s, extra_random=20 if tier == "quick" else 150):
             yield _finish(row, seed, i)
@@ -164,7 +185,7 @@ def _make_fp(c, atoms=None, seed=None, n=None, mean=None):
 def _pot_kwargs(c):
     th = _thicknesses(c)
     n = len(th)
-    ep = {"none": None, "2": 2, "tuple": (0, n - 1), "open": (0,)}[c["exit_planes"]]  # open: single plane, not the last slice
+    ep = {"none": None, "1": 1, "2": 2, "tuple": (0, n - 1), "open": (0,)}[c["exit_planes"]]  # open: single plane, not the last slice
     st = tuple(th) if isinstance(c["slice_thickness"], list) else th[0]
     return dict(gpts=_gpts(c), slice_thickness=st, exit_planes=ep)
 
